@@ -125,6 +125,85 @@ PROPS = {
         {"lookaheads_that_change_state": 10000}),
 }
 
+
+API_ASSUME = [
+    "scenarios: ScenarioSynth (YAML and dict route), the nine shipped files, "
+    "nasim's generator with random parameters incl. custom larger "
+    "address_space_bounds, the nine generated benchmarks",
+    "layout oracle = nv/layout.py written from the documentation; action "
+    "oracle = nv.spec.flat_descriptors / nv.props.api.decode_vector written "
+    "from the documentation; membership oracle = gymnasium Space.contains",
+    "held = no refuting event on the scenarios and states observed",
+]
+
+
+def _api(rule, floors_q, floors_t, timeout=(900, 5400)):
+    return dict(module="nv.props.api", level="exploration",
+                shards={"quick": 8, "thorough": 16},
+                timeout={"quick": timeout[0], "thorough": timeout[1]},
+                rule=rule, assumptions=API_ASSUME,
+                floors={"quick": floors_q, "thorough": floors_t})
+
+
+PROPS["C09"] = _api(
+    "per scenario: initial tensor vs independent encoding of the documented "
+    "layout, every row decoded back to the host definition, 1D vs 2D twin "
+    "environments stepped in lock-step, from_numpy/get_readable round trips "
+    "on states and observations along attacker runs; non-trivial = distinct "
+    "layouts (address bounds, #OS, #services, #processes) and distinct "
+    "(layout, state) pairs decoded",
+    {"layouts_checked": 80, "custom_larger_bounds": 5,
+     "observations_decoded": 3000, "states_decoded": 800},
+    {"layouts_checked": 1500, "custom_larger_bounds": 100})
+PROPS["C10"] = _api(
+    "per scenario x 8 mode combinations: every observation from reset/step "
+    "checked for dtype, shape, advertised dims and observation_space "
+    "membership; every flat index, random members in several integer "
+    "representations and space.sample() results stepped; non-trivial = "
+    "distinct (scenario, mode, action representation) accepted and distinct "
+    "observations containing a value outside [0,1]",
+    {"mode_combinations": 600, "members_accepted:sample()": 5000,
+     "members_accepted:int64": 50, "members_accepted:0d-int64": 50,
+     "members_accepted:list": 50, "members_accepted:int64-array": 50,
+     "obs_with_value_outside_0_1": 1000, "obs_with_negative_value": 50},
+    {"mode_combinations": 10000, "obs_with_negative_value": 1000})
+PROPS["C11"] = _api(
+    "per scenario: flat list vs own enumeration (multiset, order, every "
+    "attribute), advertised size, two environments of one scenario, the "
+    "mask in every state of an attacker run, and every vector of the "
+    "parameterised space (exhaustive below the cap, else boundaries + "
+    "samples) vs own decoder; non-trivial = distinct vectors hitting "
+    "wrap-around / undefined combination / OS-agnostic definition and "
+    "distinct partial masks",
+    {"flat_indices_checked": 5000, "vectors_checked": 100000,
+     "param_spaces_fully_enumerated": 50, "vec:wraparound": 1000,
+     "vec:undefined_combination": 1000, "vec:os_agnostic_definition": 200,
+     "partial_masks": 300, "masks_checked": 2000,
+     "scenarios_with_duplicate_service_os_exploits": 3},
+    {"param_spaces_fully_enumerated": 1000, "partial_masks": 10000})
+
+PROPS["C12"] = dict(
+    module="nv.props.modes", level="exploration",
+    shards={"quick": 8, "thorough": 16},
+    timeout={"quick": 900, "thorough": 5400},
+    rule="per (scenario, seed, abstract action sequence chosen online by a "
+    "pilot run): the eight mode combinations are executed one after another "
+    "from np.random.seed(seed) and, for half of the cases, in lock-step "
+    "sharing the draw stream; every step's (state bytes, reward, terminated, "
+    "truncated, info) is compared bitwise with the first combination; flat "
+    "actions are translated to parameterised vectors by the independent "
+    "decoder (inexpressible ones excluded and counted); non-trivial = "
+    "distinct sequences containing a success, a chance failure and a state "
+    "change",
+    assumptions=API_ASSUME + [
+        "the abstract sequence is what a flat index and the vector that "
+        "documents to the same (kind, definition, target) denote"],
+    floors={"quick": {"trajectories_compared": 400,
+                      "nontrivial_sequences": 25, "lockstep_runs": 15,
+                      "chance_failures_in_reference": 200,
+                      "sequences_reaching_step_limit": 3},
+            "thorough": {"nontrivial_sequences": 600, "lockstep_runs": 300}})
+
 NOT_APPLICABLE = {}
 
 ENGINES = [
@@ -136,6 +215,12 @@ ENGINES = [
      "reset/step/generative_step recorded at the API boundary and compared "
      "online with an independent reference model"},
 ]
+ENGINES.append(
+    {"name": "api", "path": "nv/props/api.py + nv/layout.py + nv/spec.py",
+     "serves_properties": ["C09", "C10", "C11", "C12"],
+     "kind_free_text": "real environments built for many scenarios; every "
+     "array, action object, vector decode and mask compared with an "
+     "independent decoder / enumeration; membership by gymnasium contains"})
 
 NOTES = ("Runtime monitoring of the real code only; no compiler sanitizers or "
          "race detectors are used because nasim is single-threaded pure "
